@@ -128,6 +128,12 @@ impl Cap {
     pub fn new(cap: usize) -> Cap {
         Cap { buf: Vec::with_capacity(cap), cap, frames: Vec::new() }
     }
+    pub fn len(&self) -> usize {
+        self.buf.len()
+    }
+    pub fn bytes(&self) -> &[u8] {
+        &self.buf
+    }
 }
 
 unsafe impl BufMut for Cap {
@@ -211,10 +217,10 @@ pub struct RefStream {
     sent: BTreeSet<u64>,
 }
 
-struct Handle {
-    sid: StreamId,
-    writer: Option<StreamWriter>,
-    reader: Option<StreamReader>,
+pub(crate) struct Handle {
+    pub(crate) sid: StreamId,
+    pub(crate) writer: Option<StreamWriter>,
+    pub(crate) reader: Option<StreamReader>,
 }
 
 pub(crate) struct Endpoint {
@@ -223,8 +229,8 @@ pub(crate) struct Endpoint {
     flow: FlowController,
     streams: DataStreams,
     params: ArcParameters,
-    rx_data: Box<dyn Fn((StreamFrame, Bytes)) -> Result<(), qbase::error::Error> + Send>,
-    rx_ctl: Box<dyn Fn(StreamCtlFrame) -> Result<(), qbase::error::Error> + Send>,
+    rx_data: Box<dyn Fn((StreamFrame, Bytes)) -> Result<(), qbase::error::Error> + Send + Sync>,
+    rx_ctl: Box<dyn Fn(StreamCtlFrame) -> Result<(), qbase::error::Error> + Send + Sync>,
     handles: Vec<Handle>,
     pc: usize,
     pkts: Vec<Pkt>,
@@ -344,6 +350,32 @@ impl Endpoint {
 }
 
 impl Endpoint {
+    /// Moves the `slot`-th stream handle (reader/writer) out, e.g. into a logical thread.
+    pub(crate) fn take_handle(&mut self, slot: usize) -> Handle {
+        self.handles.remove(slot)
+    }
+
+    pub(crate) fn streams(&self) -> &DataStreams {
+        &self.streams
+    }
+
+    /// Assembles one packet (reliable frames, then stream data) and returns its recorded frames.
+    pub(crate) fn assemble_frames(&mut self, cap: usize) -> Vec<GuaranteedFrame> {
+        let mut pkt = Cap::new(cap);
+        let _ = self.reliable.try_load_frames_into(&mut pkt);
+        let _ = self.streams.try_load_data_into(&mut pkt, &self.flow.sender, false);
+        pkt.frames
+    }
+
+    /// The acknowledgement feedback of qconnection::space::AckDataSpace for one frame.
+    pub(crate) fn ack_frame(&self, frame: GuaranteedFrame) {
+        match frame {
+            GuaranteedFrame::Stream(sf) => self.streams.on_data_acked(sf),
+            GuaranteedFrame::Reliable(ReliableFrame::StreamCtl(StreamCtlFrame::ResetStream(r))) => self.streams.on_reset_acked(r),
+            _ => {}
+        }
+    }
+
     /// A STREAM frame arrives from the peer (through the real FlowControlledDataStreams).
     pub(crate) fn peer_stream(&self, f: StreamFrame, data: Bytes) -> Result<(), qbase::error::Error> {
         (self.rx_data)((f, data))
